@@ -20,7 +20,11 @@ open Common
 
 (* ---- splitmix64, identical to harness/pure/rng.go ---- *)
 let golden = 0x9e3779b97f4a7c15L
-let rng_new (seed : int64) = ref (Int64.add (Int64.mul seed golden) 0x1234567L)
+let rng_new (seed : int64) =
+  let z = Int64.add (Int64.mul seed golden) 0x1234567L in
+  let z = Int64.mul (Int64.logxor z (Int64.shift_right_logical z 30)) 0xbf58476d1ce4e5b9L in
+  let z = Int64.mul (Int64.logxor z (Int64.shift_right_logical z 27)) 0x94d049bb133111ebL in
+  ref (Int64.logxor z (Int64.shift_right_logical z 31))
 let rng_next r =
   r := Int64.add !r golden;
   let z = !r in
